@@ -169,6 +169,32 @@ theorem C09_fsk_ook_set_address_filtering (t : Nat) (node bcast : UInt8) (h : Ha
       simp only [if_neg h1, if_neg h2, List.nil_append]
       c09_fields
 
+/-- `sx127x_fsk_ook_set_syncword`: every sync word of 1..8 non-zero bytes; the size field, the
+    sync-on bit and auto-restart mode of RegSyncConfig and the first `n` sync value registers -/
+theorem C09_fsk_ook_set_syncword (sw : List UInt8) (hlen : ¬(sw.length = 0 ∨ sw.length > 8))
+    (hnz : sw.any (· = 0) = false) (h : Handle) (c : Chip) (s : FskSide h c) :
+    Configures (fskOokSetSyncword sw) h c h (⟨0x27, 0xd7, 0x50 ||| u8 (sw.length - 1)⟩ :: regFields 0x28 sw) := by
+  unfold Configures fskOokSetSyncword
+  have hgate := FskSide.gate s
+  have hl := FskSide.page s
+  simp only [wp_bind, wp_checkFskOok, if_neg hgate]
+  rw [wp_ite, if_neg hlen, wp_ite, hnz]
+  rw [if_neg (by decide), wp_bind, wp_appendRegister_plain]
+  case hp => plain_tac
+  dsimp only
+  rw [wp_bwrite]
+  refine ⟨rfl, rfl, ?_⟩
+  show Chip.writeN _ Gen.REGSYNCVALUE1 sw = _
+  rw [writeN_regFields]
+  · simp only [Chip.setFields, List.foldl, Chip.setField]
+    have : (40 : UInt8) = ~~~215 := by decide
+    rw [this]
+  · intro i hi
+    refine plain_set _ _ _ _ (by decide) ?_
+    exact plain_fsk _ hl _ (by unfold Gen.REGSYNCVALUE1; omega)
+
+example : regFields 0x28 [0x12, 0xad] = [⟨0x28, 0xff, 0x12⟩, ⟨0x29, 0xff, 0xad⟩] := rfl
+
 /-! ## OOK demodulator -/
 
 structure OokSide (h : Handle) (c : Chip) : Prop where
@@ -445,6 +471,54 @@ theorem C09_tx_set_pa_config (pin : Nat) (power : Int)
 theorem and_not_ff (m : UInt8) : m &&& ~~~ (0xff : UInt8) = 0 := by
   have : ~~~ (0xff : UInt8) = 0 := by decide
   rw [this]; simp
+
+/-- `sx127x_lora_set_ppm_offset`: for every frequency error whose correction is representable
+    (the carrier read back from RegFrf, the float expression of the driver in range, its conversion
+    `v`): RegPpmCorrection holds the two's-complement byte of `v`, nothing else changes -/
+theorem C09_lora_set_ppm_offset (e : Int) (h : Handle) (c : Chip) (s : LoraSide h c) (fr : Nat)
+    (hfr : freqOfRaw (be32 [c.cell 6, c.cell 7, c.cell 8]) = some fr)
+    (hrange : (F.gt (ppmFloat e fr) (.fin (-129)) && F.lt (ppmFloat e fr) (.fin 128)) = true) (v : Int)
+    (hv : F.toSInt 8 (ppmFloat e fr) = some v) :
+    Configures (loraSetPpmOffset e) h c h [⟨0x27, 0xff, UInt8.ofNat (v % 256).toNat⟩] := by
+  unfold Configures loraSetPpmOffset getFrequency
+  have hgate := LoraSide.gate s
+  have hl := LoraSide.page s
+  simp only [wp_bind, wp_checkModulation]
+  rw [if_neg (fun hn => hn hgate), wp_sread]
+  have h3 : c.readN Gen.REGFRFMSB 3 = ([c.cell 6, c.cell 7, c.cell 8], c) :=
+    readN_plain3 c 6 (by plain_tac) (by plain_tac) (by plain_tac)
+  simp only [h3, hfr, wp_pure]
+  rw [wp_ite, if_neg (by rw [hrange]; decide)]
+  simp only [hv]
+  c09_run
+  refine ⟨rfl, rfl, ?_⟩
+  c09_fields
+
+/-- non-vacuity: at 868 MHz a measured error of 10 kHz satisfies the three hypotheses (correction 10) -/
+example : freqOfRaw (be32 [0xd9, 0, 0]) = some 868000000
+    ∧ (F.gt (ppmFloat 10000 868000000) (.fin (-129)) && F.lt (ppmFloat 10000 868000000) (.fin 128)) = true
+    ∧ F.toSInt 8 (ppmFloat 10000 868000000) = some 10 := by decide +kernel
+
+/-- `sx127x_fsk_ook_rx_calibrate` in standby with no calibration running: only ImageCalStart is
+    set (the polling loop reads RegImageCal once and ends) -/
+theorem C09_fsk_ook_rx_calibrate (fuel : Nat) (h : Handle) (c : Chip) (s : FskSide h c)
+    (hst : h.opmod = Gen.SX127x_MODE_STANDBY) (hidle : c.cell 0x3b &&& 0x20 = 0) (wf : c.WF) :
+    Configures (fskOokRxCalibrate (fuel + 1)) h c h [⟨0x3b, 0x40, 0x40⟩] := by
+  unfold Configures fskOokRxCalibrate calibrateLoop
+  have hgate := FskSide.gate s
+  have hl := FskSide.page s
+  simp only [wp_bind, wp_checkFskOok, if_neg hgate, wp_getH]
+  rw [wp_ite, if_neg (fun hn => hn hst)]
+  c09_run
+  have hcell : (c.setCell Gen.REGIMAGECAL (c.cell Gen.REGIMAGECAL &&& 191 ||| 64)).cell Gen.REGIMAGECAL
+      = c.cell Gen.REGIMAGECAL &&& 191 ||| 64 := cell_setCell_same c wf _ _ (by decide) (by decide)
+  have hbv : ∀ b : BitVec 8, (⟨b⟩ : UInt8) &&& 32 = 0 → ¬(((⟨b⟩ : UInt8) &&& 191 ||| 64) &&& 32 = 32) := by decide +kernel
+  have hbit : ∀ x : UInt8, x &&& 32 = 0 → ¬((x &&& 191 ||| 64) &&& 32 = 32) := fun x => hbv x.toBitVec
+  rw [wp_ite, hcell, if_neg (hbit _ hidle), wp_pure]
+  refine ⟨rfl, rfl, ?_⟩
+  simp only [Chip.setFields, List.foldl, Chip.setField]
+  have : (191 : UInt8) = ~~~64 := by decide
+  rw [this]
 
 /-- **C09, frame rule.** If a call configures the field list `fs` (each on a plain register, each
     value inside its field), then after the call: in every register, every bit outside the fields
